@@ -36,7 +36,7 @@ type Prog struct {
 	funcs []*ssa.Function // all module functions (incl. anonymous), deterministic order
 	// InlineInfo records the helper normalisation that was applied (nil: nothing to normalise).
 	InlineInfo map[string]interface{}
-	cg    *CallGraph
+	cg         *CallGraph
 }
 
 func loadProg(dir string, cfg Config) (*Prog, error) {
@@ -83,6 +83,11 @@ func loadProg(dir string, cfg Config) (*Prog, error) {
 		case ierr != nil:
 			p.InlineInfo = map[string]interface{}{"abandoned": ierr.Error()}
 		case ir != nil:
+			if d := os.Getenv("STUNLINT_DUMPOVERLAY"); d != "" {
+				for name, src := range ir.Overlay {
+					_ = os.WriteFile(d+"/"+strings.ReplaceAll(strings.TrimPrefix(name, dir+"/"), "/", "_"), src, 0o644)
+				}
+			}
 			pc2 := *pc
 			pc2.Overlay = ir.Overlay
 			initial2, err2 := packages.Load(&pc2, "./...")
